@@ -12,7 +12,7 @@
 //grid: { let mut b = [1u8,2,3,4,5]; let r = st16({v}, &mut b, {i}, {a}).is_ok(); (b.to_vec(), r) } ||| let '(b, r) := src_st16 {v} [1;2;3;4;5] {i} {a} in (b, match r with inl _ => true | inr _ => false end) ||| v=258,65535,7; i=0,1,2,3; a=true,false
 //grid: { let mut b = [1u8,2,3,4,5,6,7]; let r = st24({v}, &mut b, {i}, {a}).is_ok(); (b.to_vec(), r) } ||| let '(b, r) := src_st24 {v} [1;2;3;4;5;6;7] {i} {a} in (b, match r with inl _ => true | inr _ => false end) ||| v=66051,16777215,4278190080; i=0,1,2,3; a=true,false
 //grid: mid(&[10,20,30,40,50], {x}, {y}) ||| src_mid [10;20;30;40;50] {x} {y} ||| x=0,1,3,4,5,6; y=0,2,4,5,6
-//grid: idx(&[10,20,30], {i}) ||| src_idx [10;20;30] {i} ||| i=0,1,2
+//pgrid: idx(&[10,20,30], {i}) ||| src_idx [10;20;30] {i} ||| i=0,1,2,3,100
 //grid: { let mut b = [1u8,2,3,4,5,6]; let r = stmid(&mut b, {x}, {y}).is_ok(); (b.to_vec(), r) } ||| let '(b, r) := src_stmid [1;2;3;4;5;6] {x} {y} in (b, match r with inl _ => true | inr _ => false end) ||| x=0,1,3,4,7; y=0,3,4,5,6,7
 //grid: first_or(&[{l}], 9) ||| src_first_or [{m}] 9 ||| l=5; m=5
 #[derive(Debug, Clone, Copy, PartialEq)]
